@@ -11,6 +11,12 @@ from ..records import Layouts, struct_field_names
 LEVEL = "other"
 
 
+def open_wiring(chk, repo):
+    """C13-A11: one path for parse, pixel array and group name (vlib/openmodel.py)"""
+    from .open_rules import open_rules
+    open_rules(chk, repo, "C13-A11", ('array', 'group', 'open-args'), "open_image: the file that is parsed, the file the pixel array points at and the file the group is named after are the same; the group of the parsed records is what is returned")
+
+
 def run(chk, repo):
     chk.explanation = (
         "Wiring rules over def-use chains: file roles are taken from the summary positionally (first, second, *middle, "
@@ -36,6 +42,7 @@ def run(chk, repo):
         chk.rule(rid, text, m)
     chk.attempt(a1, chk, repo)
     chk.attempt(a2_a5, chk, repo)
+    chk.attempt(open_wiring, chk, repo)
     chk.attempt(a6_a7, chk, repo)
     chk.attempt(groupname_injective, chk, repo, "C13-A7")
     from ..openpath import OpenPath
